@@ -10,6 +10,12 @@
     exported constructor + options): `o.endpoints.Authorization = e` lands on the instance's own `endpoints`
     because `NewProvider` initialises that field with a copy; it would land on `op.DefaultEndpoints.Authorization`
     if the constructor stored the package-level pointer itself (F-C20a, repaired).
+  * closures: a write to a variable (or through a variable) that an escaping function literal CAPTURES from an enclosing
+    function has root `.captured owner var depth`.  If `owner` is a declared function that is not a constructor
+    (`factoryLevel`), the cell lives in the VALUE that this function hands out (an option, an issuer factory, …):
+    `Cell.captured val owner var path`, shared by exactly the constructions that were handed value `val`
+    (`Inst.vals`); otherwise (variable of a constructor's activation or of a function literal, or a value that the
+    instance shares with nobody) it is a cell of the instance: `.own i "closure:owner" var`.
   * `stepCells` is the may-write set of one program step (a construction or an API call),
     `StepRel`/`RunRel` the frame semantics of programs, `stepSegs` the access sequence a step contributes
     to a thread, `Machine` the interleaving semantics with mutexes.
@@ -24,6 +30,10 @@ inductive Root where
   | param (name ty : String)               -- parameter (or captured parameter of the enclosing function)
   | fresh (ty : String)                    -- object created in this function (the object under construction)
   | via (baseTy method : String)           -- result of a zero-argument method call on a non-local object: x.HttpClient()
+  | captured (owner var : String) (depth : Nat)
+    -- variable `var` of an enclosing function `owner` (depth 0: the declared function itself, > 0: a function literal
+    -- inside it), captured by a function literal that escapes: the cell outlives the call and is shared by every
+    -- invocation of the closure
   deriving DecidableEq, Repr
 
 inductive Op where
@@ -93,17 +103,26 @@ inductive Cell where
   | global (name : String) (path : List String)
   | supplied (ty : String) (path : List String)
   | own (inst : Nat) (ty field : String)
+  /-- a variable captured by the closure(s) inside option / factory VALUE number `val`, which was made by one call of
+      `owner`: every construction that is handed this value shares the cell -/
+  | captured (val : Nat) (owner var : String) (path : List String)
   deriving DecidableEq, Repr
 
 def Cell.shared : Cell → Bool
   | .own .. => false
   | _ => true
 
+/-- forget WHICH value a captured cell lives in (the instance-independent description of the write sites cannot know it) -/
+def Cell.norm : Cell → Cell
+  | .captured _ o v p => .captured 0 o v p
+  | c => c
+
 /-- printable name at field granularity: `op.DefaultEndpoints.Authorization`, `http.Client.CheckRedirect` -/
 def Cell.name : Cell → String
   | .global g p => g ++ (match p with | [] => "" | f :: _ => "." ++ f)
   | .supplied t p => t ++ (match p with | [] => "" | f :: _ => "." ++ f)
   | .own i t f => "#" ++ toString i ++ ":" ++ t ++ "." ++ f
+  | .captured _ o v p => "closure:" ++ o ++ "." ++ v ++ (match p with | [] => "" | f :: _ => "." ++ f)
 
 /-- how an instance was built: exported constructor and option constructors, and its Go type -/
 structure Inst where
@@ -111,6 +130,10 @@ structure Inst where
   ty : String
   entry : String
   opts : List String
+  /-- option / issuer-factory VALUES handed to the constructor that may be handed to other constructions as well:
+      (the library function whose call made the value, identity of the value).  Two instances that list the same
+      identity were built from the very same value (`f := op.IssuerFromHost("/")` passed to two `NewProvider` calls). -/
+  vals : List (String × Nat) := []
   deriving DecidableEq, Repr
 
 inductive Kind where
@@ -134,10 +157,11 @@ def isCtorName (F : Facts) (fn : String) : Bool := F.ctors.any fun c => c.name =
 
 def ctorFns (F : Facts) (i : Inst) : List String := reachOf F i.entry
 def optFns (F : Facts) (i : Inst) : List String := i.opts.flatMap (reachOf F)
+def valFns (F : Facts) (i : Inst) : List String := i.vals.flatMap fun p => reachOf F p.1
 
 def stepFns (F : Facts) (st : Step) : List String :=
   match st.kind with
-  | .construct => ctorFns F st.inst ++ optFns F st.inst
+  | .construct => ctorFns F st.inst ++ optFns F st.inst ++ valFns F st.inst
   | .call => reachOf F st.entry
 
 /-- a write inside constructor X goes through the initialisers of X and of the options, not through those
@@ -171,9 +195,24 @@ def typedCells (F : Facts) (i : Inst) (s : WriteSite) (t : String) : List Cell :
     fieldCells F i s t s.path ++ (if s.op == .append then fieldCells F i s t (s.path ++ ["[]"]) else [])
   else [.supplied t s.path]
 
+/-- a captured variable lives at FACTORY level when it belongs to a declared function that is not itself a constructor:
+    the closure is (part of) a value that this function hands out, and the value can be given to several constructions.
+    Variables of a constructor's own activation, and variables of a function literal (one activation per invocation of
+    that literal), belong to the instance for which they were created. -/
+def factoryLevel (F : Facts) (owner : String) (depth : Nat) : Bool := depth == 0 && !isCtorName F owner
+
+/-- identities of the values of instance `i` that were made by (a function reaching) `owner` -/
+def valsOf (F : Facts) (i : Inst) (owner : String) : List Nat :=
+  (i.vals.filter fun p => (reachOf F p.1).contains owner).map Prod.snd
+
+def capturedCells (F : Facts) (i : Inst) (s : WriteSite) (owner v : String) (depth : Nat) : List Cell :=
+  if factoryLevel F owner depth && !(valsOf F i owner).isEmpty then (valsOf F i owner).map fun k => .captured k owner v s.path
+  else [.own i.id ("closure:" ++ owner) v]
+
 /-- the cells a write site may write when it runs on / for instance `i` -/
 def siteCells (F : Facts) (i : Inst) (s : WriteSite) : List Cell :=
   match s.root with
+  | .captured o v d => capturedCells F i s o v d
   | .global g => [.global g s.path]
   | .recv t => typedCells F i s t
   | .param _ t => typedCells F i s t
@@ -196,6 +235,7 @@ def typedAny (F : Facts) (s : WriteSite) (t : String) : List Cell :=
 
 def siteAny (F : Facts) (s : WriteSite) : List Cell :=
   match s.root with
+  | .captured o v d => if factoryLevel F o d then [.captured 0 o v s.path] else []
   | .global g => [.global g s.path]
   | .recv t => typedAny F s t
   | .param _ t => typedAny F s t
@@ -203,9 +243,9 @@ def siteAny (F : Facts) (s : WriteSite) : List Cell :=
   | .via _ m =>
     .supplied ("via:" ++ m) s.path :: (F.getters.filter fun g => g.method == m).flatMap fun g => fieldAny F s g.ty (g.field :: s.path)
 
-/-- every (function, shared cell) the library may write at all -/
+/-- every (function, shared cell) the library may write at all (captured cells without the identity of the value) -/
 def hidden (F : Facts) : List (String × Cell) :=
-  F.sites.flatMap fun s => (siteAny F s).map fun c => (s.fn, c)
+  F.sites.flatMap fun s => (siteAny F s).map fun c => (s.fn, c.norm)
 
 def dedup {α : Type} [BEq α] : List α → List α
   | [] => []
@@ -226,8 +266,16 @@ def preinit (F : Facts) (i : Inst) (s : WriteSite) : Bool :=
   s.guard == .ifNil &&
   (F.ctors.filter fun c => c.ty == siteTy s && (ctorFns F i).contains c.name).all fun c => c.eager.contains s.meth
 
+/-- a site runs in a step when the step reaches its function; a closure's site also when the step reaches the function
+    that created the closure (whoever obtains the closure may call it) -/
+def runsIn (F : Facts) (st : Step) (s : WriteSite) : Bool :=
+  (stepFns F st).contains s.fn ||
+  (match s.root with
+   | .captured o _ _ => (stepFns F st).contains o
+   | _ => false)
+
 def active (F : Facts) (st : Step) (s : WriteSite) : Bool :=
-  (stepFns F st).contains s.fn && (st.kind == .construct || !preinit F st.inst s)
+  runsIn F st s && (st.kind == .construct || !preinit F st.inst s)
 
 /-- may-write set of a step -/
 def stepCells (F : Facts) (st : Step) : List Cell :=
